@@ -14,24 +14,35 @@ inline hid_t open_file_id() {
     return ids[0];
 }
 
-struct ReachCtx { std::string needle; bool found; };
-inline herr_t reach_cb(hid_t obj, const char *, const H5O_info_t *, void *op) {
-    ReachCtx *c = (ReachCtx *)op;
-    if (H5Aexists(obj, "entity_id") <= 0) return 0;
-    hid_t a = H5Aopen(obj, "entity_id", H5P_DEFAULT); if (a < 0) return 0;
+struct ReachCtx { std::string needle; hid_t found; };
+inline std::string entity_id_attr(hid_t o) {
+    if (H5Aexists(o, "entity_id") <= 0) return "";
+    hid_t a = H5Aopen(o, "entity_id", H5P_DEFAULT); if (a < 0) return "";
     hid_t t = H5Aget_type(a); char *s = nullptr; std::string val;
     if (H5Tis_variable_str(t) > 0) { if (H5Aread(a, t, &s) >= 0 && s) { val = s; H5free_memory(s); } }
     else { size_t sz = H5Tget_size(t); std::vector<char> buf(sz + 1, 0); if (H5Aread(a, t, buf.data()) >= 0) val = buf.data(); }
     H5Tclose(t); H5Aclose(a);
-    if (val == c->needle) { c->found = true; return 1; }
+    return val;
+}
+// H5Ovisit hands the callback the *root* of the walk and the path of the visited object relative to it
+inline herr_t reach_cb(hid_t root, const char *name, const H5O_info_t *info, void *op) {
+    ReachCtx *c = (ReachCtx *)op;
+    (void)info;
+    hid_t o = H5Oopen(root, name, H5P_DEFAULT); if (o < 0) return 0;
+    if (entity_id_attr(o) == c->needle) { c->found = o; return 1; }
+    H5Oclose(o);
     return 0;
 }
-// is an object carrying this entity_id reachable from the root group through any chain of links?
-inline bool entity_reachable(const std::string &entity_id) {
-    hid_t f = open_file_id(); if (f < 0) return false;
-    ReachCtx c{entity_id, false};
+// an open HDF5 handle on the object carrying this entity_id, if one is reachable from the root group through any chain of links; else -1.
+// The caller closes it with H5Oclose.
+inline hid_t entity_open(const std::string &entity_id) {
+    hid_t f = open_file_id(); if (f < 0) return -1;
+    ReachCtx c{entity_id, -1};
     H5Ovisit(f, H5_INDEX_NAME, H5_ITER_NATIVE, reach_cb, &c);
     return c.found;
 }
+inline bool entity_reachable(const std::string &entity_id) { hid_t o = entity_open(entity_id); if (o < 0) return false; H5Oclose(o); return true; }
+// number of hard links HDF5 itself counts for the object behind a handle (-1: cannot tell)
+inline long h5_link_count(hid_t o) { H5O_info_t oi; if (o < 0 || H5Oget_info(o, &oi) < 0) return -1; return (long)oi.rc; }
 
 }  // namespace vm
